@@ -6,7 +6,7 @@ META = {
     "technique": "static analysis: interprocedural mutates-parameter effect summaries with flow-insensitive alias "
                  "sets (frame condition), literal evaluation of the operator-symbol and basis-vector tables; QR gauge-move idiom table; loop-structure check of the term buffers",
     "design_ref": "DESIGN.md §5 C11",
-    "explanation": "PURE: for every public method of MPS and MPO and every function of algebra.py / utils.py, the set "
+    "explanation": "APPLY-op: MPS.apply(k, A) stores sum_j A[i,j]*factor[a,j,b] - the operator's column index is contracted with the physical leg (matmul from the left, tensordot over ([1],[1]) with the transposition back, or einsum 'ij,ajb->aib'); contracting the row index applies the transpose. PURE: for every public method of MPS and MPO and every function of algebra.py / utils.py, the set "
                    "of parameters whose reachable tensors or object state may be mutated (augmented assignment, "
                    "subscript/attribute store, trailing-underscore torch method, list mutation, or passing to a "
                    "callee that mutates) is empty, except for the documented in-place table {orthogonalize, "
